@@ -1,6 +1,7 @@
 package c04exec
 
 import (
+	"encoding/json"
 	"fmt"
 
 	"github.com/nspcc-dev/neo-go/pkg/core/interop/interopnames"
@@ -20,7 +21,7 @@ const NC = 3
 
 // Stmt is one statement of the call-tree language of spec/exec/Exec.tla (same field names as the TLA+ records).
 //
-//	put key val | del key | notify n | throw | vmthrow | abort | nset val | nget key | xfer amt
+//	put key val | del key | notify n | throw | vmthrow | abort | nset val | nget key | xfer amt | deploy d
 //	call c fl body | try body catch fin hc hf | sub body | pay c body
 type Stmt struct {
 	K     string `json:"k"`
@@ -30,6 +31,7 @@ type Stmt struct {
 	C     int    `json:"c"`
 	Fl    int    `json:"fl"`
 	Amt   int    `json:"amt"`
+	D     int    `json:"d"`
 	Hc    bool   `json:"hc"`
 	Hf    bool   `json:"hf"`
 	Body  []Stmt `json:"body"`
@@ -59,6 +61,8 @@ func (s *Stmt) JSON() map[string]any {
 		m["val"] = s.Val
 	case "xfer":
 		m["amt"] = s.Amt
+	case "deploy":
+		m["d"] = s.D
 	case "call":
 		m["c"], m["fl"], m["body"] = s.C, s.Fl, blockJSON(s.Body)
 	case "pay":
@@ -112,14 +116,47 @@ type Compiled struct {
 	Entry     func(h [NC]util.Uint160, sink util.Uint160) []byte
 	Marks     [NC]map[int]Mark
 	EntryMark map[int]Mark
+	Children  map[int]util.Uint160 // child id -> hash of the contract a deploy statement creates
 	entry     *cbuild
 }
 
 type compiler struct {
-	cb    [NC]*cbuild
-	entry *cbuild
-	nmeth int
-	npay  int
+	cb       [NC]*cbuild
+	entry    *cbuild
+	nmeth    int
+	npay     int
+	name     string
+	payer    util.Uint160
+	children map[int]*childC
+}
+
+// childC is a tiny contract deployed by a deploy statement: one method m() returning 1.
+type childC struct {
+	nef, manifest []byte
+	hash          util.Uint160
+}
+
+func (c *compiler) child(d int) *childC {
+	if ch, ok := c.children[d]; ok {
+		return ch
+	}
+	ne, err := nef.NewFile([]byte{byte(opcode.PUSH1), byte(opcode.RET)})
+	if err != nil {
+		panic(err)
+	}
+	m := manifest.NewManifest(fmt.Sprintf("%s-child%d", c.name, d))
+	m.ABI.Methods = []manifest.Method{{Name: "m", Offset: 0, ReturnType: smartcontract.IntegerType, Parameters: []manifest.Parameter{}}}
+	nb, err := ne.Bytes()
+	if err != nil {
+		panic(err)
+	}
+	mb, err := json.Marshal(m)
+	if err != nil {
+		panic(err)
+	}
+	ch := &childC{nef: nb, manifest: mb, hash: state.CreateContractHash(c.payer, ne.Checksum, m.Name)}
+	c.children[d] = ch
+	return ch
 }
 
 const (
@@ -194,6 +231,16 @@ func (c *compiler) stmt(cb *cbuild, self int, s *Stmt, path []any, idx int) {
 		a.pushInt(15)
 		a.pushString("transfer")
 		a.pushBytes(nativehashes.GasToken.BytesBE())
+		a.syscall(interopnames.SystemContractCall)
+		a.op(opcode.DROP)
+	case "deploy": // ContractManagement.deploy(nef, manifest) of a tiny child contract
+		ch := c.child(s.D)
+		a.pushBytes(ch.manifest)
+		a.pushBytes(ch.nef)
+		a.op(opcode.PUSH2, opcode.PACK)
+		a.pushInt(15)
+		a.pushString("deploy")
+		a.pushBytes(nativehashes.ContractManagement.BytesBE())
 		a.syscall(interopnames.SystemContractCall)
 		a.op(opcode.DROP)
 	case "pay":
@@ -306,8 +353,8 @@ func drain(cb *cbuild) bool {
 
 // Compile turns a tree into up to NC contracts and an entry script. name must be unique per scenario
 // (it becomes part of the contract names and therefore of their hashes); sender deploys.
-func Compile(root []Stmt, name string, sender util.Uint160) (*Compiled, error) {
-	c := &compiler{}
+func Compile(root []Stmt, name string, sender, payer util.Uint160) (*Compiled, error) {
+	c := &compiler{name: name, payer: payer, children: map[int]*childC{}}
 	for i := range c.cb {
 		c.cb[i] = &cbuild{marks: map[int]Mark{}}
 	}
@@ -324,7 +371,10 @@ func Compile(root []Stmt, name string, sender util.Uint160) (*Compiled, error) {
 			}
 		}
 	}
-	out := &Compiled{entry: c.entry}
+	out := &Compiled{entry: c.entry, Children: map[int]util.Uint160{}}
+	for d, ch := range c.children {
+		out.Children[d] = ch.hash
+	}
 	for i, cb := range c.cb {
 		if !cb.used {
 			continue
